@@ -139,6 +139,9 @@ def solve_groups(groups, timeout_ms=10000, second=True, procs=None, short=()):
         if out[n][0] != 'unsat':
             is_short = any(k.startswith(s) for s in short)
             retry.append((n, t, 3000 if is_short else timeout_ms, second and not is_short, True))
+    # many open obligations at once mean the code no longer fits the contract: the full budget and the
+    # second-opinion solvers are spent on the first 24 only (the verdict cannot improve beyond that)
+    retry = retry[:24] + [r for r in retry[24:] if r[2] == 3000]
     if retry:
         with ThreadPoolExecutor(max_workers=procs) as ex:
             for r in ex.map(_solve_text, retry):
